@@ -127,6 +127,10 @@ func c01Open(c *Case, st *fs3.Store, prefix string, epn int, readOnly bool, perm
 }
 
 func runC01(c *Case) {
+	if c.Index%50 == 49 {
+		c01Wide(c)
+		return
+	}
 	r := c.R
 	nw := r.Range(3, 5)
 	if c.Index%10 == 9 {
@@ -393,4 +397,76 @@ func runC01(c *Case) {
 		}
 		c.Res.Sample = map[string]interface{}{"writers": nw, "frontier": frontier, "dag": dag, "history": l, "rows": ref}
 	}
+}
+
+// c01Wide: 34-48 writers open the empty table before any of them commits and
+// write one row each, so that many unmerged versions are listed at once; a
+// read-only open, a read-write open and another read-only open must each show
+// every row, and after the read-write open the table is quiescent.
+func c01Wide(c *Case) {
+	r := c.R
+	st := newStore()
+	defer dropStore(st)
+	n := r.Range(34, 48)
+	epn := []int{4096, 3}[r.Intn(2)]
+	st.PageSize = []int{0, 7, 1000}[r.Intn(3)]
+	cols := "k PRIMARY KEY, a"
+	var conns []*Conn
+	defer func() {
+		for _, cn := range conns {
+			cn.Close()
+		}
+	}()
+	var tabs []string
+	for i := 0; i < n; i++ {
+		cn := OpenConn(fmt.Sprintf("ww%d", i))
+		conns = append(conns, cn)
+		t := tname(c, fmt.Sprintf("ww%d_", i))
+		tabs = append(tabs, t)
+		if err := cn.Create(TableSpec{Name: t, Cols: cols, Store: st.Name, Client: fmt.Sprintf("ww%d", i), Prefix: "wide", EPN: epn}); err != nil {
+			c.Violate("C01:wide:create", err.Error(), nil)
+			return
+		}
+	}
+	var want []string
+	for i, cn := range conns {
+		cn.SetWriteTime(100 + i)
+		if err := cn.Exec(fmt.Sprintf("insert into %s values (%d, 'w%d')", tabs[i], i, i)); err != nil {
+			c.Violate("C01:wide:statement-error", err.Error(), nil)
+			return
+		}
+		want = append(want, fmt.Sprintf("i:%d|t:w%d", i, i))
+	}
+	unmerged := len(walk.VersionNames(st.Snapshot(), walk.Base("wide"), "current"))
+	c.Count("wide_version_sets", 1)
+	c.MaxOf("unmerged_versions_listed_at_once", int64(unmerged))
+	var l1 []string
+	for i, ro := range []bool{true, false, true, false} {
+		cn := OpenConn("wr")
+		t := tname(c, "wr")
+		err := cn.Create(TableSpec{Name: t, Cols: cols, Store: st.Name, Client: fmt.Sprintf("wr%d", i), Prefix: "wide", EPN: epn, ReadOnly: ro})
+		var d []string
+		if err == nil {
+			d, err = cn.Dump(t)
+		}
+		cn.Close()
+		if err != nil {
+			c.Violate("C01:wide:open-error", fmt.Sprintf("open %d (readonly=%v) over %d unmerged versions: %v", i, ro, unmerged, err), nil)
+			return
+		}
+		if df := firstDiff(want, d); df != "" {
+			c.Violate("C01:wide:rows-missing", fmt.Sprintf("open %d (readonly=%v) over %d unmerged versions of one row each does not show every row: %s", i, ro, unmerged, df), nil)
+			return
+		}
+		if i == 1 {
+			l1 = st.Listing(walk.Base("wide"))
+		}
+		if i == 3 {
+			if df := firstDiff(l1, st.Listing(walk.Base("wide"))); df != "" {
+				c.Violate("C01:wide:not-quiescent", "a second read-write open of the merged table still changes the bucket: "+df, nil)
+				return
+			}
+		}
+	}
+	c.NonTrivial(fmt.Sprint("wide", n, epn, st.PageSize))
 }
